@@ -7,6 +7,7 @@ import (
 	"strings"
 
 	"github.com/ovrclk/akash/validation"
+	dtypes "github.com/ovrclk/akash/x/deployment/types"
 )
 
 // SchemeResult is what the real code said about one concretisation of a pair.
@@ -15,6 +16,7 @@ type SchemeResult struct {
 	Ballast  bool   `json:"ballast"`  // the scheme adds the oracle-neutral ballast element to every group of both sides
 	Valid    bool   `json:"valid"`    // validation.ValidateManifest(m) == nil
 	Cross    string `json:"cross"`    // class of validation.ValidateManifestWithDeployment(&m, groups)
+	CrossGS  string `json:"cross_gs"` // class of the client-side twin validation.ValidateManifestWithGroupSpecs (same loop)
 	ResRej   bool   `json:"resrej"`   // errors.Is(cross error, validation.ErrManifestCrossValidation): "the resource comparison rejects"
 	Accepted bool   `json:"accepted"` // Valid && cross == nil: what manager.validateRequest decides after the version gate
 	Err      string `json:"err,omitempty"`
@@ -27,6 +29,7 @@ type PairLine struct {
 	D    json.RawMessage `json:"d"`
 	M    json.RawMessage `json:"m"`
 	Res  []SchemeResult  `json:"res"`
+	Src  string          `json:"src,omitempty"` // for pairs abstracted from real SDL files: groups-file x manifest-file
 }
 
 // classify maps the error of the cross-validation to the result classes of ManifestMatch.tla (Cross). Only used
@@ -53,6 +56,14 @@ func classify(err error) string {
 	return "other"
 }
 
+func groupSpecs(groups []dtypes.Group) []*dtypes.GroupSpec {
+	out := make([]*dtypes.GroupSpec, 0, len(groups))
+	for i := range groups {
+		out = append(out, &groups[i].GroupSpec)
+	}
+	return out
+}
+
 // RunPair runs the real validation functions on one pair under one scheme.
 func RunPair(p *Pair, s int) (r SchemeResult, err error) {
 	r.Scheme = s
@@ -72,6 +83,7 @@ func RunPair(p *Pair, s int) (r SchemeResult, err error) {
 	}()
 	verr := validation.ValidateManifest(m)
 	cerr := validation.ValidateManifestWithDeployment(&m, groups)
+	r.CrossGS = classify(validation.ValidateManifestWithGroupSpecs(&m, groupSpecs(groups)))
 	r.Valid = verr == nil
 	r.Cross = classify(cerr)
 	r.ResRej = cerr != nil && errors.Is(cerr, validation.ErrManifestCrossValidation)
